@@ -21,7 +21,8 @@ func ctxCancelled() (context.Context, context.CancelFunc) {
 
 type mutBatch struct {
 	level, kind                       string
-	n, ok, need, err, panics          int
+	n, ok, need, err, panics, hangs   int
+	firstHang                         string
 	disprop, declared                 int
 	firstPanic, firstDisprop, firstKF string
 	maxAlloc                          uint64
@@ -31,7 +32,7 @@ func (b *mutBatch) emit(tr *Tracer) {
 	if b.n == 0 {
 		return
 	}
-	tr.Emit(Ev{"ev": "Mut", "level": b.level, "kind": b.kind, "n": b.n, "ok": b.ok, "need": b.need, "err": b.err, "panic": b.panics,
+	tr.Emit(Ev{"ev": "Mut", "level": b.level, "kind": b.kind, "n": b.n, "ok": b.ok, "need": b.need, "err": b.err, "panic": b.panics, "hang": b.hangs, "firsthang": b.firstHang,
 		"disprop": b.disprop, "declared": b.declared, "firstpanic": b.firstPanic, "firstdisprop": b.firstDisprop, "firstdeclared": b.firstKF,
 		"maxalloc": int(b.maxAlloc)})
 }
@@ -57,7 +58,7 @@ var mutDeadline time.Time
 
 func (b *mutBatch) run(in []byte, f func() string) {
 	// enough evidence in this batch, or the run is out of time: stop executing inputs
-	if b.panics+b.disprop+b.declared >= 3 || (!mutDeadline.IsZero() && time.Now().After(mutDeadline)) {
+	if b.panics+b.disprop+b.declared+b.hangs >= 3 || (!mutDeadline.IsZero() && time.Now().After(mutDeadline)) {
 		return
 	}
 	var m0, m1 runtime.MemStats
@@ -81,6 +82,12 @@ func (b *mutBatch) run(in []byte, f func() string) {
 		b.need++
 	case "err":
 		b.err++
+	case "hang":
+		// neither values nor an error: the call was still running when the watchdog fired
+		b.hangs++
+		if b.firstHang == "" {
+			b.firstHang = hexHead(in)
+		}
 	default:
 		b.panics++
 		if b.firstPanic == "" {
@@ -391,6 +398,10 @@ func wireMutate(r *wireRun, rounds int) {
 			hdr[4], hdr[5] = 0, 0 // channel 0 exists
 		}
 		garbage := randBytes(r.rng, r.rng.Intn(80))
+		if i%8 == 3 {
+			// a peer that keeps sending: more bytes follow than any 16-bit length can announce
+			garbage = randBytes(r.rng, 66000+r.rng.Intn(3000))
+		}
 		stream := append(hdr, garbage...)
 		b.run(stream, func() string {
 			mc := newMemConn()
@@ -400,6 +411,8 @@ func wireMutate(r *wireRun, rounds int) {
 			conn, _ := tds.NewConnWithTransport(context.Background(), mc, info, false)
 			ch, _ := conn.NewChannel()
 			mc.Feed(stream)
+			rctx, rcancel := context.WithCancel(context.Background())
+			defer rcancel() // lets a reader that is still looping come to an end
 			done := make(chan string, 1)
 			go func() {
 				defer func() {
@@ -408,7 +421,7 @@ func wireMutate(r *wireRun, rounds int) {
 					}
 				}()
 				pk := &tds.Packet{}
-				_, err := pk.ReadFrom(context.Background(), mc, 0)
+				_, err := pk.ReadFrom(rctx, mc, 0)
 				if err != nil {
 					done <- "err"
 					return
@@ -427,7 +440,7 @@ func wireMutate(r *wireRun, rounds int) {
 			case st := <-done:
 				return st
 			case <-time.After(3 * time.Second):
-				return "err" // blocked, not crashed
+				return "hang" // the dead peer fails every further read: nothing legitimate blocks here
 			}
 		})
 	}
